@@ -180,6 +180,16 @@ func checkFunc(c funcCase) *vk.Failure {
 		if f != nil {
 			return f
 		}
+		{
+			// Inverse and LU use the same Getrf/Gecon computation and norm: the
+			// Condition error must agree with LU.Cond of the same matrix.
+			var lu mat.LU
+			lu.Factorize(denseOf(A))
+			if fc := errIffCond("inverse", err, lu.Cond()); fc != nil {
+				fc.Msg += fmt.Sprintf(" (class %s n=%d %s)", c.Class, n, label)
+				return fc
+			}
+		}
 		if g.singular {
 			cv, ok := condOf(err)
 			if !ok || !math.IsInf(cv, 1) {
